@@ -128,7 +128,7 @@ def run(ctx):
     c01 = __import__("harness.c01", fromlist=["regen"])
     rng = ctx.rng
     quick = ctx.tier == "quick"
-    ctx.rule = ("generated 16-row tables vs the Python function on angle triples k*pi/12 x passive; ordered pairs from {generic, axial}^2 plus identical, aligned, axial pairs sharing their symmetry axis, mirrored (B = S A S^T, S a Cartesian mirror / two-fold axis) and rotated-copy pairs x "
+    ctx.rule = ("generated 16-row tables vs the Python function on angle triples k*pi/12 x passive; ordered pairs from {generic, axial}^2 plus identical, aligned, axial pairs sharing their symmetry axis / with perpendicular or specially tilted symmetry axes, mirrored (B = S A S^T, S a Cartesian mirror / two-fold axis) and rotated-copy pairs x "
                 "4 orders x {zyz, zxz} x {active, passive}: double-coset relation for generic pairs (all 17 angle sets), zero / flip for identical and aligned, the "
                 "component along the symmetry axis when a partner is axially symmetric")
     ctx.trusted += ["py2v nmr_utils translator (shared with C01/C02/C08); scipy Rotation is an oracle", "_tryallanglestest / _compute_rotation (the search over equivalent "
@@ -156,7 +156,7 @@ def run(ctx):
     NP = 40 if quick else 1000
     for t in range(NP):
         ka, kb = [("generic", "generic"), ("axial", "generic"), ("generic", "axial"), ("axial", "axial"), ("identical", ""), ("aligned", ""),
-                  ("mirror", ""), ("copy", ""), ("axial-aligned", "")][t % 9]
+                  ("mirror", ""), ("copy", ""), ("axial-aligned", ""), ("axial-perp", "")][t % 10]
         for order in ("i", "d", "h", "n"):
             if ka == "identical":
                 A, evA, RA_ = mk_tensor(rng, "generic", order)
@@ -167,6 +167,18 @@ def run(ctx):
                 S = np.diag(rng.choice([(1, 1, -1), (1, -1, 1), (-1, 1, 1), (-1, -1, 1), (1, -1, -1), (-1, 1, -1)])) if ka == "mirror" else rand_rot(rng)
                 TB_ = S @ np.array(A._symm) @ S.T
                 B = NMRTensor((TB_ + TB_.T) / 2, order=order)
+            elif ka == "axial-perp":
+                # two axially symmetric tensors whose symmetry axes are exactly perpendicular, or tilted with A's axis at a special azimuth in B's frame
+                A, evA, RA_ = mk_tensor(rng, "axial", order)
+                a2 = rng.uniform(-8, 8)
+                evB_ = [a2, a2, a2 + (1 if evA[2] > evA[0] else -1) * rng.uniform(1, 5)]
+                from scipy.spatial.transform import Rotation as _Rot
+                tilt = rng.choice([math.pi / 2, math.pi / 2, math.pi / 3, math.pi / 4])
+                az = rng.choice([0.0, math.pi / 4, 3 * math.pi / 4, 5 * math.pi / 4, 7 * math.pi / 4, rng.uniform(0, 2 * math.pi)])
+                Rt = _Rot.from_euler("ZY", [az, tilt]).as_matrix()
+                RB_ = RA_ @ Rt
+                # built from an (eigenvalues, eigenvectors) pair so that B's in-plane axes are the ones chosen here
+                B = NMRTensor((np.array(evB_), RB_), order=order)
             elif ka == "axial-aligned":
                 # two axially symmetric tensors sharing the symmetry axis (different principal values, one turned about the common axis)
                 A, evA, RA_ = mk_tensor(rng, "axial", order)
